@@ -1,8 +1,77 @@
 import TypstyleModel.Props.C01
-/-! C07 — (partial) see DESIGN.md §4 C07. Foundation: layout soundness and the post-pass. -/
+import TypstyleModel.Model.Printer.Knot
+/-! C07 — the `@typstyle off` escape hatch reproduces the next node verbatim (printer side:
+marking and verbatim emission are theorems; "the text occurs in the output" additionally needs that
+the atom reaches the output, which every layout guarantees (R1), and the post-pass (S5), and is
+searched on the implementation). -/
 namespace Typstyle
 open Pretty
 
-theorem C07_layout_sound (w : Nat) (d : Doc) : Lay .brk d (best w 0 [⟨0, .brk, d⟩]) := pretty_lay w d
+/-- T7.1a: after a directive comment, white space and `#` keep the directive pending … -/
+theorem C07_pending_skips_space_and_hash (cm : Bool) (y : Node) (rest : List Node)
+    (hy : y.kind = .space ∨ y.kind = .hash) (hnc : isCommentKind y.kind = false) :
+    annotateKids false true cm (y :: rest) =
+      (annotate false y :: (annotateKids false true cm rest).1, (annotateKids false true cm rest).2) := by
+  rw [annotateKids]
+  rcases hy with h | h
+  · have : isCommentKind Kind.space = false := by rw [← h]; exact hnc
+    simp [h, this]
+  · have : isCommentKind Kind.hash = false := by rw [← h]; exact hnc
+    simp [h, this]
+
+/-- T7.1b: … and the first following sibling that is neither is marked format-disabled (and the
+directive is consumed: the siblings after it are annotated normally). -/
+theorem C07_pending_marks_next_node (cm : Bool) (x : Node) (rest : List Node)
+    (hx : x.kind ≠ .space ∧ x.kind ≠ .hash) (hnc : isCommentKind x.kind = false) :
+    annotateKids false true cm (x :: rest) =
+      ((annotate true x).setDisabled :: (annotateKids false false cm rest).1, (annotateKids false false cm rest).2) := by
+  rw [annotateKids]
+  simp [hnc, hx.1, hx.2]
+
+/-- T7.1c: a comment containing `@typstyle off` is itself kept verbatim and makes the directive pending. -/
+theorem C07_directive_comment_sets_pending (dn cm : Bool) (c : Node) (rest : List Node)
+    (hc : isCommentKind c.kind = true) (hoff : containsOff c.text = true) :
+    annotateKids false dn cm (c :: rest) =
+      ((annotate true c).setDisabled :: (annotateKids false true true rest).1, (annotateKids false true true rest).2) := by
+  rw [annotateKids]
+  simp [hc, hoff]
+
+theorem setDisabled_disabled (n : ANode) : n.setDisabled.attrs.disabled = true := by
+  cases n <;> rfl
+
+/-- Numbering the nodes does not touch the marks. -/
+theorem C07_number_keeps_marks (n : ANode) (k : Nat) : (number n k).1.attrs.disabled = n.attrs.disabled := by
+  cases n <;> simp [number, ANode.attrs]
+
+/-- T7.2 (expressions): a marked expression is not converted: the entry point returns one verbatim
+atom holding the node's source text, whatever the context. -/
+theorem C07_disabled_expr_is_verbatim (e : Env) (r : Rec) (ctx : Ctx) (n : ANode) (h : n.attrs.disabled = true) :
+    convExpr e r ctx n = (do enter .expr n.attrs.id; pure (e.verb n.intoText)) := by
+  simp [convExpr, h]
+
+/-- T7.2 (equation bodies). -/
+theorem C07_disabled_math_is_verbatim (e : Env) (r : Rec) (ctx : Ctx) (n : ANode) (h : n.attrs.disabled = true) :
+    convMath e r ctx n = (do enter .math n.attrs.id; pure (e.verb n.intoText)) := by
+  simp [convMath, h]
+
+/-- T7.2 (patterns). -/
+theorem C07_disabled_pattern_is_verbatim (e : Env) (r : Rec) (es ps : Ctx → ANode → M Twin.Doc) (ctx : Ctx) (n : ANode)
+    (h : n.attrs.disabled = true) :
+    convPattern e r es ps ctx n = (do enter .pattern n.attrs.id; pure (e.verb n.intoText)) := by
+  simp [convPattern, h]
+
+/-- T7.2 (code bodies): a code block whose body is marked is emitted verbatim as a whole. -/
+theorem C07_disabled_code_body_is_verbatim (e : Env) (r : Rec) (ctx : Ctx) (n body : ANode)
+    (hb : n.children.find? (·.kind == .code) = some body) (h : body.attrs.disabled = true) :
+    convCodeBlock e r ctx n = pure (e.verb n.intoText) := by
+  simp [convCodeBlock, hb, h]
+
+/-- The verbatim document is a single text atom carrying exactly the source text — at every indent
+unit, in every layout (so at every width): nothing inside it can be re-spaced, re-broken or re-indented. -/
+theorem C07_verbatim_is_one_atom (e : Env) (s : String) (hs : s.isEmpty = false) (u : Nat) (m : Mode) (xs : List Atom)
+    (h : Lay m ((e.verb s).fam u) xs) : xs = [.txt s .verbatim] := by
+  simp only [Env.verb, Twin.fam_mkText, mkText, hs] at h
+  cases h
+  rfl
 
 end Typstyle
